@@ -668,7 +668,54 @@ def rule_payload_marshal_cells(ctx, rule_id, only=None):
     ctx.require(n_cls >= (1 if only else 7), f"only {n_cls} payload-carrying message classes with a documented format")
 
 
+def rule_optional_uri(ctx):
+    """HELLO may be sent without a realm (the router assigns one): `Hello(None, roles)` marshals to `[1, null, {..}]`.  parse() validates that position
+    with `check_or_raise_uri(.., allow_none=True)`; the validator is evaluated (sa.core.tiny; a compiled pattern answers like `re`: TypeError for a
+    non-string) on None and on a URI: None must come back as None (not raise), and without allow_none it must be the library's own error."""
+    from ..core.tiny import Tiny, Sym, TinyRaise
+    ctx.rule("C03.8-optional-realm-survives")
+    m, classes = _classes(ctx)
+    hello = [c for c in classes if c.name == "Hello"]
+    ctx.require(len(hello) == 1, "Hello class not found")
+    pf = hello[0].methods["parse"]
+    fn = m.funcs.get("check_or_raise_uri")
+    ctx.require(fn is not None, "check_or_raise_uri not found")
+    ctx.analysed(pf, fn)
+    calls = [c_ for c_ in calls_in(pf.node) if call_name(c_) == "check_or_raise_uri" and c_.args and norm.text(c_.args[0]) == "wmsg[1]"]
+    ok = len(calls) == 1 and any(k_.arg == "allow_none" and isinstance(k_.value, ast.Constant) and k_.value.value is True for k_ in calls[0].keywords)
+    ctx.ob("Hello.parse validates the realm position as an optional URI (allow_none=True)", ok, "realm no longer optional in parse() although marshal() emits null for it", pf.loc())
+    names = fn.params()
+    dflt = fn.node.args.defaults
+    base = {n_: (d_.value if isinstance(d_, ast.Constant) else None) for n_, d_ in zip(names[len(names) - len(dflt):], dflt)}
+    body = [x for x in fn.node.body if not (isinstance(x, ast.Expr) and isinstance(x.value, ast.Constant))]
+    probs = []
+
+    def default(f_, a_, k_=None):
+        if f_.endswith(".match") or f_.endswith(".fullmatch"):
+            if not a_ or not isinstance(a_[0], str):
+                raise TinyRaise("TypeError")
+            return Sym("match")
+        return Sym(f"<{f_}>")
+    try:
+        for value, allow_none, want in ((None, True, ("return", None)), ("com.realm", True, ("return", "com.realm")), (None, False, ("raise", "InvalidUriError")),
+                                        ("com.realm", False, ("return", "com.realm"))):
+            env = {k_: Sym(f"<{k_}>") for k_ in m.consts}
+            env.update(base)
+            env.update({names[0]: value, names[1]: "realm", "allow_none": allow_none})
+            r = Tiny(env, default_call=default, model_types=True, model_strings=True, opaque_globals=True).run(body)
+            got = (r[0], r[1] if r[0] == "return" else str(r[1]).split("(")[0].strip().split(".")[-1])
+            if r[0] == "fall":
+                got = ("return", None)
+            if got != want:
+                probs.append(f"check_or_raise_uri({value!r}, allow_none={allow_none}): {got[0]} {got[1]!r}, expected {want[0]} {want[1]!r}")
+    except AnalysisError as e:
+        raise AnalysisError(f"[C03.8-optional-realm-survives] check_or_raise_uri outside the modelled subset: {e}")
+    ctx.ob("the URI validator hands an allowed None back as None (HELLO without a realm can be read back) and refuses it otherwise with the library's own error [4 cells]",
+           not probs, "; ".join(probs[:2]), fn.loc())
+
+
 def run(ctx):
+    rule_optional_uri(ctx)
     rule_payload_marshal_cells(ctx, "C03.7-payload-tail-marshalled")
     rule_role_features(ctx)
     rule_tables(ctx)
